@@ -740,6 +740,9 @@ class C17Prop(CommProp):
             if i % 4 == 3:
                 calls = [("repro_gnp", 1 + r.below(40), pn, pd, dr, r.below(51))
                          for (pn, pd) in [r.pick([(1, 20), (1, 5), (1, 2), (9, 10)])] for dr in (0, 1)]
+                if i % 16 == 3:
+                    # the seed VALUE 0 (and the largest u64-representable test value) is a seed like any other
+                    calls = [(c[0], max(c[1], 6), 1, 2, c[4], sd) for c, sd in zip(calls, (0, 0))]
                 cases.append({"id": "r%d" % i, "spec": None, "nodes": [], "edges": [], "calls": calls})
                 continue
             kind = FAMS[(i + r.below(len(FAMS))) % len(FAMS)]
@@ -778,7 +781,8 @@ class C17Prop(CommProp):
             names = sorted(set(x for e in edges for x in e[:2]))
             nodes = [(x, None) for x in r.shuffle(names)]
             gn, gd = r.pick([(1, 1), (1, 2), (3, 2), (0, 0)])
-            calls = [("repro_louv", 0 if wmode == "unw" else 1, gn, gd, r.pick([0, 0, 1, 3]), r.below(21))]
+            calls = [("repro_louv", 0 if wmode == "unw" else 1, gn, gd, r.pick([0, 0, 1, 3]),
+                      0 if i % 16 == 5 else r.below(21))]
             cases.append({"id": "r%d" % i, "spec": (directed, 0, 1, 0, 0, 0), "nodes": nodes, "edges": edges,
                           "calls": calls})
         return cases
